@@ -41,6 +41,17 @@ META["C14"] = dict(
   note="Runs are single-cell through the catalogue; hidden state is only observable through outputs/final states, which is what the property speaks about.",
   technique="metamorphic property-based testing (rapid): repeat / fresh object / perturbed-future relations")
 
+META["C10"] = dict(
+  text="Invariant-over-the-history property test for the five rainfall-runoff models: non-negativity, store bounds, component sums and cumulative water budgets over generated parameter vectors and long generated series. Exploration.",
+  design_ref="DESIGN.md section 4, C10",
+  note="Stores between steps are observed through final states of prefix runs at drawn cut points (and the per-step store output where the model reports one). Parameter domain: simref.DrawCell.",
+  technique="property-based testing (rapid) with conservation / bound invariants over generated series")
+META["C15"] = dict(
+  text="Differential property test of GR4J against an independent implementation of the published equations over the whole documented parameter range, every unit-hydrograph length class, and carried initial stores. Exploration.",
+  design_ref="DESIGN.md section 4, C15",
+  note="Trusted: simref/gr4jref.go (about 100 lines written from the paper, sharing no code with the repository).",
+  technique="differential property-based testing (rapid) against an independent reference implementation")
+
 import os, sys
 sys.path.insert(0, os.path.dirname(os.path.abspath(__file__)))
 from checks_config import CHECKS
